@@ -41,8 +41,10 @@ def cq_event(op):
     if k == 4:
         return "(EvDosLogConf %s (Build_dlogobj %s))" % (key, valid)
     log = C.cq_opt(op.get("log_ref", "") if op.get("has_log") else None, C.cq_str)
-    return "(EvDosPR (Build_probj %s %s %s %s %s))" % (C.cq_str(op["ns"]), C.cq_str(op["name"]), valid,
-                                                       C.cq_str(op.get("pol_ref", "")), log)
+    return "(EvDosPR (Build_probj %s %s %s %s %s %s %s))" % (C.cq_str(op["ns"]), C.cq_str(op["name"]), valid,
+                                                             C.cq_str(op.get("pol_ref", "")), log,
+                                                             C.cq_bool(op.get("pr_enable", False)),
+                                                             C.cq_bool(op.get("log_enable", False)))
 
 
 def cq_strs(l):
